@@ -474,7 +474,8 @@ class EvolutionarySolver(RandomSearchSolver):
         scores_hof = list(zip(*self.hof))[0]
 
         depth_pop = [circuit.depth for (_, circuit) in population]
-        depth_hof = [circuit.depth for (_, circuit) in self.hof]
+        # the hall of fame still holds empty (inf, None) slots while fewer than n_hof circuits have been scored
+        depth_hof = [circuit.depth for (_, circuit) in self.hof if circuit is not None]
 
         self.logs["population"].append(
             dict(
